@@ -233,8 +233,8 @@ N("C19-neutral-guard-added", "C19", ("utils.py", "    if include_huge and num > 
 APM = "apmath.py"
 M("C12-eps-loses-term", "C12", "R12.1", (APM, "                eps_i = ctx.select(p, eps_ip1, f_j)", "                eps_i = ctx.select(p, eps_ip1, eps_i)"))
 M("C12-select-inverted", "C12", "R12.1", (APM, "                f_lst.append(ctx.select(p, f_j, zero))", "                f_lst.append(ctx.select(p, zero, f_j))"))
-M("C12-nztopk-count", "C12", "R12.1", (APM, "        nzcount.append(nzcount[-1] + ctx.select(b, ione, izero))", "        nzcount.append(nzcount[-1] + ione)"))
+M("C12-nztopk-le", "C12", "R12.1", (APM, "ctx.logical_and(isnzero[j], nzcount[j] == i)", "ctx.logical_and(isnzero[j], nzcount[j] <= i)"))
 M("C12-nztopk-two", "C12", "R12.1", (APM, "        return [ctx.select(flag, seq[1], seq[0]), ctx.select(flag, seq[0], seq[1])]", "        return [ctx.select(flag, seq[1], seq[0]), ctx.select(flag, seq[1], seq[0])]"))
-M("C12-vecsum-drops-error", "C12", "R12.1", (APM, "        s, e = two_sum(ctx, seq[i], s, fix_overflow=fix_overflow, assume_fma=fast)\n        e_lst.insert(0, e)", "        s, e = two_sum(ctx, seq[i], s, fix_overflow=fix_overflow, assume_fma=fast)\n        e_lst.insert(0, e if i else s * 0)"))
+M("C12-errbranch-index", "C12", "R12.1", (APM, "        f_j, eps_ip1 = two_sum(ctx, eps_i, e_lst[i + 1], fix_overflow=fix_overflow, assume_fma=fast)", "        f_j, eps_ip1 = two_sum(ctx, eps_i, e_lst[i], fix_overflow=fix_overflow, assume_fma=fast)"))
 M("C12-seed-maxsize", "C12", "R12.2", (APM, "max_size = {numpy.float16: 4, numpy.float32: 12, numpy.float64: 40}[dtype]", "max_size = {numpy.float16: 3, numpy.float32: 11, numpy.float64: 39}[dtype]"))
 N("C12-neutral-ne-to-not-eq", "C12", (APM, "                p = ctx.ne(eps_ip1, zero)", "                p = ctx.logical_not(ctx.eq(eps_ip1, zero))"))
